@@ -409,6 +409,7 @@ Proof.
     destruct (blocks_safe _ _ _ _ _ _ Ewb HW) as [Hs Hr].
     specialize (Hr k O (a_inj a)). pose proof (run_script_last k (concat (a_blocks a).*2) O (a_inj a)) as Hl.
     destruct (run_script k (concat (a_blocks a).*2) 0 (a_inj a)) as [[ev1 k1] pf]. cbn [fst snd] in *.
+    destruct (werr && negb pf); [done|].
     destruct (werr || pf); simplify_eq.
     + split; [|done]. eapply same_wants_trans; [done|apply foldr_rq_add_must_sw].
     + split; [|done]. eapply same_wants_trans; [done|done].
@@ -739,6 +740,7 @@ Proof.
     case_bool_decide; [|done].
     destruct (write_blocks_good _ _ _ _ _ _ Ewb Hs) as [Hw1 Hw2].
     destruct (run_script k (concat (a_blocks a).*2) 0 (a_inj a)) as [[ev1 k1] pf].
+    destruct (werr && negb pf); [done|].
     destruct (werr || pf); simplify_eq.
     + eapply (good_foldr _ (λ n, owned n = true)); [| |exact Hw1].
       * intros; by apply good_rq_add_must.
